@@ -5,7 +5,7 @@
 Require Extraction.
 Require Import ExtrOcamlBasic.
 From Coq Require Import List NArith ZArith.
-From SDB Require Import Base.Bytes Base.Assoc Params Model.Codec Model.Lock Model.Page.
+From SDB Require Import Base.Bytes Base.Assoc Params Model.Codec Model.Lock Model.Page Model.Pool.
 
 Extraction Blacklist List String Int.
 
@@ -21,4 +21,6 @@ Extraction "sdbmodel.ml"
   linit lstep
   (* M2 slotted page *)
   pinit pstep astep abs op_ok
+  (* M5 buffer pool *)
+  binit bstep
   N.of_nat N.to_nat Z.of_N Z.to_N Z.compare N.compare.
